@@ -80,7 +80,14 @@ func selfTest(ctx *core.Ctx) error {
 	if r2.Invariant != "ExtentOK" {
 		return core.Infra("self-test: without the carve-out for short lengths into trailing white space ExtentOK should fail, got %q", r2.Invariant)
 	}
-	ctx.Logf("self-test (ii): offByOne tolerance violates LookupOK; strict reading of the length clause violates ExtentOK in the model")
+	r3, err := ctx.TLC(core.TLCOpts{Dir: specDir, Module: "MC_XRefHistory", Cfg: "MC_XRefHistory_nullzero.cfg", Workers: 8, Mode: "negative-control", XssMB: 512})
+	if err != nil {
+		return err
+	}
+	if r3.Invariant != "ExtentOK" {
+		return core.Infra("self-test: a null /Length taken as 0 (the code before 8dab642) should violate ExtentOK, got %q", r3.Invariant)
+	}
+	ctx.Logf("self-test (ii): offByOne tolerance violates LookupOK; strict reading of the length clause and null-length-as-0 violate ExtentOK in the model")
 
 	// (iii) a wrong expectation in a table line
 	exp := append([][3]int(nil), good.Probes...)
